@@ -176,6 +176,10 @@ def _lin_decompose(t, coeff, out):
 def EXP_pair(t):
     """Return (P, Q) z3 terms with exp(t) = P / Q, both products of atoms."""
     ctx = _ctx()
+    memo = ctx.aux.setdefault("_exp_memo", {})
+    got = memo.get(t.get_id())
+    if got is not None:
+        return got[0], got[1]
     out = {}
     _lin_decompose(t, Fraction(1), out)
     P, Q = ONE, ONE
@@ -201,6 +205,7 @@ def EXP_pair(t):
         base = X if k > 0 else Y
         for _ in range(abs(k)):
             P = _mul(P, base)
+    memo[t.get_id()] = (P, Q, t)
     return P, Q
 
 
@@ -402,7 +407,8 @@ class Sym:
             r = Sym(-self.p, is_int=self.is_int)
         else:
             # -(p + log(n/d)) = -p + log(d/n); requires n > 0
-            _ctx().domain(self.num > 0, "negation of a log-kind value that may be -inf")
+            if not _ctx().domain(self.num > 0, "negation of -inf"):
+                return math.inf
             r = Sym(-self.real(), self.den, self.num)
         if self.d is not None:
             r.d = -self.d
@@ -454,7 +460,8 @@ class Sym:
             if k >= 0:
                 r = Sym(a.real() * rv(k), _pow(a.num, k), _pow(a.den, k))
             else:
-                _ctx().domain(a.num > 0, "negative multiple of a log-kind value that may be -inf")
+                if not _ctx().domain(a.num > 0, "negative multiple of -inf"):
+                    return math.inf
                 r = Sym(a.real() * rv(k), _pow(a.den, -k), _pow(a.num, -k))
             if a.d is not None:
                 r.d = a.d * k
@@ -585,7 +592,8 @@ class Sym:
     def log(self):
         if not self.plain:
             return _ctx().opaque("log", self)
-        _ctx().domain(self.real() >= 0, "log of a negative number")
+        if not _ctx().domain(self.real() >= 0, "log of a negative number"):
+            return math.nan
         N, D = ratfun(self.real())
         if not _is_one(D):
             c = _ctx()
@@ -612,7 +620,10 @@ class Sym:
     def sqrt(self):
         if not self.plain:
             return self / 2 if False else _ctx().opaque("sqrt", self)
-        r = Sym(_ctx().sqrt_term(self.real()))
+        st = _ctx().sqrt_term(self.real())
+        if st is None:
+            return math.nan
+        r = Sym(st)
         if self.d is not None:
             r.d = self.d / (2 * r)
         return r
@@ -776,7 +787,8 @@ def _add_special(s, f):
     if f == -math.inf:
         return f
     # +inf + value that might be -inf
-    _ctx().domain(s.num > 0, "+inf added to a value that may be -inf")
+    if not _ctx().domain(s.num > 0, "+inf added to -inf"):
+        return math.nan
     return f
 
 
